@@ -51,7 +51,8 @@ def instantiate(ctx, start):
                 out.append(z3.Implies(z3.And(t > pi / 2, t < 3 * pi / 2), k < 0))
                 out.append(z3.Implies(z3.And(t > -3 * pi / 2, t < -pi / 2), k < 0))
                 ab = lambda e: z3.If(e >= 0, e, -e)
-                out.append(z3.And(ab(s) <= ab(t), ab(k) <= ab(t - pi / 2), ab(k) <= ab(t + pi / 2), ab(s) <= ab(t - pi), ab(s) <= ab(t + pi)))
+                if ctx.opts.get("ax_lipschitz"):
+                    out.append(z3.And(ab(s) <= ab(t), ab(k) <= ab(t - pi / 2), ab(k) <= ab(t + pi / 2), ab(s) <= ab(t - pi), ab(s) <= ab(t + pi)))
                 out.append(z3.Implies(t == 0, z3.And(s == 0, k == 1)))
                 out.append(z3.Implies(t == pi / 2, z3.And(s == 1, k == 0)))
                 out.append(z3.Implies(t == -pi / 2, z3.And(s == -1, k == 0)))
@@ -114,6 +115,8 @@ def instantiate(ctx, start):
         # pairwise monotonicity / functional consistency with earlier applications of the same symbol
         for (n2, a2, c2) in ctx.uf_list[: i - 1]:
             if n2 != name:
+                continue
+            if name == "sin" and not ctx.opts.get("ax_shift", True):
                 continue
             if name == "sin":  # shift / reflection laws between two arguments (conditional, hence always sound)
                 t1, t2 = args[0], a2[0]
